@@ -150,7 +150,7 @@ def expected_rows(s):
 
 
 def run(chk):
-    build, oracle, tables = emucheck.setup(chk)
+    build, oracle, tables = emucheck.setup(chk, extra_units=("prv",))
     chk.assumptions = ["the input is what the player delivers: events in non-decreasing time order (C03)",
                        "state types are those of corpus/C13/state_types.json (pinned from the tree: types whose values are names)",
                        "breakdown files (-b) are judged by the independent checker only; the Coq model has no breakdown output"]
